@@ -509,11 +509,62 @@ kubernetes:
 	c.Nontrivial = true
 }
 
+// c03IterateLock: TaskQueueSet.Iterate (the live-metrics goroutine of operator.go calls it every 5 s, the
+// debug endpoints on demand) holds the set's read lock while the consumer wants the write lock for an
+// event (DoWithLock). Iterate is parked right after it took the read lock, the consumer's DoWithLock is
+// started, Iterate goes on. Both must finish: otherwise no event is ever placed in a queue again and
+// every handler that looks a queue up blocks — all queues stall.
+func c03IterateLock(c *Case) {
+	key := fmt.Sprintf("c03lock-%d", c.Idx)
+	ctx, cancel := context.WithCancel(context.Background())
+	defer cancel()
+	tqs := queue.NewTaskQueueSet()
+	tqs.WithMainName(key)
+	tqs.WithContext(ctx)
+	tqs.NewNamedQueue(key, func(task.Task) queue.TaskResult { return queue.TaskResult{Status: queue.Success} })
+	arrive := sched.Subscribe(key)
+	defer sched.Unsubscribe(key)
+	iterDone := make(chan struct{})
+	go func() {
+		tqs.Iterate(func(*queue.TaskQueue) {})
+		close(iterDone)
+	}()
+	responsive := true
+	select {
+	case a := <-arrive:
+		lockDone := make(chan struct{})
+		go func() {
+			tqs.DoWithLock(func(*queue.TaskQueueSet) {}) // the consumer placing the tasks of an event
+			close(lockDone)
+		}()
+		time.Sleep(50 * time.Millisecond) // the writer is waiting for the reader now
+		a.Release()
+		for _, ch := range []chan struct{}{iterDone, lockDone} {
+			select {
+			case <-ch:
+			case <-time.After(5 * time.Second):
+				responsive = false
+			}
+		}
+	case <-time.After(5 * time.Second):
+		responsive = false
+	}
+	if !responsive {
+		hangs.Add(1)
+	}
+	c.Oracle(fmt.Sprintf("opflag what=queue-set-answers-while-Iterate-and-the-consumer-overlap ok=%v", responsive))
+	c.Nontrivial = true
+}
+
 func runC03(r *Run) {
 	r.Rule = "real TaskQueueSet, real started TaskQueue workers, the real ManagerEventsHandler as consumer. Three kinds of cases: (1) controlled: 2-4 named queues, random schedules (deliveries for several queues per event through the schedule or the kube channel, worker steps from yield point to yield point, handler results, repeated Start) compared op by op with the model; `plain` cases (Success/Fail/Repeat only) are run dry and checked for per-queue execution order = arrival order; (2) blocked: queue 1 is held inside its handler (or in a 60 s back-off) while the other queues receive and complete all their tasks; (3) free-running: the same with real goroutines and no scheduler control, handler durations 0-300us, failures and repeats, queue 1's first hook blocks on a channel until the other queues have completed everything. (4) whole operator: a real ShellOperator assembled from the real pieces over 2-5 generated bash hooks with schedule bindings in main and 1-3 named queues (queues created by initAndStartHookQueues), ticks sent into the schedule channel, hook processes write start/end markers with their number of binding contexts; hook h1 hangs while the other queues must finish; some hooks fail their first run. Oracles on the start/end/arrival trace of the real code: no two executions of one queue overlap, the handled task is the head, per-queue order = arrival order, the other queues complete n executions while queue 1's execution is open, placement by the consumer. Non-trivial = trace of >= 10 events; distinct = distinct op-line sequences."
 	r.One(0, func(c *Case, _ *Rng) {
 		c.Desc = "default queue name from the real config loader"
 		c03DefaultQueue(c)
+	})
+	r.One(1, func(c *Case, _ *Rng) {
+		c.Desc = "corpus: TaskQueueSet.Iterate overlapping with the consumer's DoWithLock"
+		c03IterateLock(c)
 	})
 	n := r.N(500, 5000)
 	r.Cases(10, n, 0, func(c *Case, rng *Rng) { c03Controlled(c, rng, true) })
